@@ -247,7 +247,13 @@ class CommandLineJob(Job):
             # Get from pidpath file
             from experimaestro.connectors import Process
 
-            pinfo = json.loads(self.pidpath.read_text())
+            try:
+                pinfo = json.loads(self.pidpath.read_text())
+            except json.JSONDecodeError:
+                # The scheduler died (or is still) writing the file: no
+                # information on the process
+                logger.warning("Could not read PID file %s", self.pidpath)
+                return None
             p = Process.fromDefinition(self.launcher.connector, pinfo)
             if p is None:
                 return None
